@@ -844,6 +844,10 @@ ObsStep(S, r) ==
            THEN Bad(S, "C09", "the broker did not terminate after the shutdown request")
          ELSE IF \E i \in 1..Len(r.conns) : ~r.conns[i].dropped /\ ~r.conns[i].done
            THEN Bad(S, "C09", "a connection task did not return")
+         \* C09 / C15 "the broker side observes the connection as closed": a connection task that has
+         \* returned must have told the broker, or the broker keeps everything the connection owned
+         ELSE IF \E i \in 1..Len(r.conns) : r.conns[i].done /\ ~r.conns[i].dropped /\ r.conns[i].c \in DOMAIN S.conns /\ ~r.brokerDone
+           THEN Bad(S, "C09", "a connection task has returned but the broker still has the connection registered (its state is never released)")
          ELSE S
     [] OTHER -> S
 =============================================================================
